@@ -1,7 +1,7 @@
 /-
 Model of the iteration contract of galactics/beyond over integer microseconds:
 
-* `Date.range(start, stop, step, inclusive)`            beyond/dates/date.py  (DateRange.__init__, __iter__, __len__)
+* `Date.range(start, stop, step, inclusive)`            beyond/dates/date.py  (DateRange.__init__, __iter__)
 * `AnalyticalPropagator.iter` / `_iter`                 beyond/propagators/base.py
 * `NumericalPropagator.iter`, `propagate`               beyond/propagators/base.py
 * `KeplerNum._iter` (control flow only, fixed step)     beyond/propagators/keplernum.py
@@ -68,17 +68,11 @@ deriving DecidableEq, Repr
 inductive Dates | list (l : List Int) | range (start stop step : Int) (incl : Bool)
 deriving DecidableEq, Repr
 
-/-- `DateRange.__len__` for a constructible range (step ≠ 0, signs coherent):
-`int(ceil(dur / step)) + (1 if inclusive and dur % step == 0 else 0)` -/
-def rangeLen (start stop step : Int) (incl : Bool) : Nat :=
-  let dur := (stop - start).natAbs
-  let s := step.natAbs
-  (dur + s - 1) / s + (if incl ∧ dur % s = 0 then 1 else 0)
-
-/-- `if dates:` -/
-def Dates.truthy : Dates → Bool
-  | .list l => !l.isEmpty
-  | .range s0 s1 st incl => decide (rangeLen s0 s1 st incl > 0)
+/-- `Date.range(start, stop, step, inclusive=incl)` as an object: the constructor checks of `DateRange.__init__` -/
+def mkRange (start stop step : Int) (incl : Bool) : Except Err Dates :=
+  if step = 0 then .error .value                                   -- "Null step"
+  else if pySign (stop - start) ≠ pySign step then .error .value   -- "start/stop order not coherent with step"
+  else .ok (.range start stop step incl)
 
 /-- `for date in dates: yield propagate(date)` -/
 def Dates.run (ok : Int → Bool) (fuel : Nat) : Dates → Run
@@ -120,7 +114,7 @@ def analyticalArgs (epoch : Int) (selfStep : Option Int) (a : Args) : Except Err
 /-- `AnalyticalPropagator._iter` -/
 def analyticalIterCore (fuel : Nat) (a : Args) (sss : Option (Int × Int × Int)) : Run :=
   match a.dates, sss with
-  | some ds, _ => if ds.truthy then ds.run yes fuel else Run.fail .value   -- Date.range(None, None, None): "Null step"
+  | some ds, _ => ds.run yes fuel                                          -- `if dates is not None:` (an empty list yields nothing)
   | none, some (start, stop, step) => dateRange yes fuel start stop step true
   | none, none => Run.fail .value
 
@@ -146,14 +140,44 @@ def ownPts (start stop : Int) : List Int → List Int
   | [] => []
   | d :: r => if d < start then ownPts start stop r else if d > stop then [] else d :: ownPts start stop r
 
+/-- `for orb in reversed(self._orbits): if orb.date > start: continue; if orb.date < stop: break; yield orb.copy()`
+(the argument is the reversed list of points) -/
+def ownPtsBack (start stop : Int) : List Int → List Int
+  | [] => []
+  | d :: r => if d > start then ownPtsBack start stop r else if d < stop then [] else d :: ownPtsBack start stop r
+
+/-- `Ephem._iter_backward(start, stop, step, strict, listeners)` : `stop < start`, both given -/
+def ephemIterBackward (fuel : Nat) (order : Nat) (pts : List Int) (start stop : Int) (step : Option Int) (strict : Bool) : Run :=
+  match pts.head?, pts.getLast? with
+  | some first, some last =>
+    let clamp : Except Err (Int × Int) :=
+      if start > last ∨ stop < first then
+        (if strict then .error .value else .ok (min start last, max stop first))
+      else .ok (start, stop)
+    match clamp with
+    | .error e => Run.fail e
+    | .ok (start1, stop1) =>
+      match step with
+      | none => ⟨ownPtsBack start1 stop1 pts.reverse, .done⟩
+      | some s =>
+        let s := if s > 0 then -s else s
+        loop (fun d => decide (d ≥ stop1)) (interpOk order pts) s fuel start1
+  | _, _ => Run.fail .index
+
 /-- `Ephem.iter(dates=, start=, stop=, step=, strict=)` on an ephemeris tabulated at `pts` (ascending) -/
 def ephemIter (fuel : Nat) (order : Nat) (pts : List Int) (dates : Option Dates) (start : Option Int)
     (stop : Option Stop) (step : Option Int) (strict : Bool) : Run :=
-  if (match dates with | some ds => ds.truthy | none => false) then
-    match dates with
-    | some ds => ds.run (interpOk order pts) fuel
-    | none => Run.fail .value
-  else
+  match dates with
+  | some ds => ds.run (interpOk order pts) fuel                     -- `if dates is not None:`
+  | none =>
+    -- `if start is not None and stop is not None: _stop = ...; if _stop < start: yield from self._iter_backward(...)`
+    let back : Option (Int × Int) :=
+      match start, stop with
+      | some s, some st => if st.resolve s < s then some (s, st.resolve s) else none
+      | _, _ => none
+    match back with
+    | some (s, st) => ephemIterBackward fuel order pts s st step strict
+    | none =>
     match pts.head?, pts.getLast? with
     | some first, some last =>
       -- start
@@ -181,26 +205,50 @@ def ephemIter (fuel : Nat) (order : Nat) (pts : List Int) (dates : Option Dates)
 
 /-! ### NumericalPropagator.iter + KeplerNum._iter -/
 
-/-- `while date < stop: make_step; ephem.append(orb); date += self.step` — the dates appended -/
-def march (h stop : Int) : Nat → Int → Option (List Int)
-  | 0, _ => none
-  | f + 1, date => if date < stop then (march h stop f (date + h)).map ((date + h) :: ·) else some []
+/-- `while ((date > stop) if backward else (date < stop)) or (interp and len(ephem) < Ephem.DEFAULT_ORDER):`
+`    real_step, orb = self._make_step(orb, _step); ephem.append(orb); date += real_step` — the dates appended.
+`len` is `len(ephem)`, `hs` the signed integration step `_step` (`real_step == _step` for the fixed-step methods). -/
+def march (backward interp : Bool) (order : Nat) (hs stop : Int) : Nat → Nat → Int → Option (List Int)
+  | 0, _, _ => none
+  | f + 1, len, date =>
+    if (if backward then decide (date > stop) else decide (date < stop)) || (interp && decide (len < order)) then
+      (march backward interp order hs stop f (len + 1) (date + hs)).map ((date + hs) :: ·)
+    else some []
 
-/-- `KeplerNum._iter` from the point where `start`, `stop`, `step` are known. The positioning of the
+/-- `min(dates)`, `max(dates)` of a non-empty list `d :: l` -/
+def listMin (d : Int) (l : List Int) : Int := l.foldl min d
+def listMax (d : Int) (l : List Int) : Int := l.foldl max d
+
+/-- `KeplerNum._iter` from the point where `start`, `stop`, `step`, `dates` are known. The positioning of the
 state at `start` (extrapolation or retropolation from the epoch, padded to `order` points, then one
 interpolation inside the padded span) always succeeds for the fixed-step methods and is not a date
-computation; only its result date `start` enters here. -/
-def numCore (fuel order : Nat) (h start stop : Int) (kstep : Option Int) (dates : Option Dates) : Run :=
-  match march h stop fuel start with
-  | none => ⟨[], .fuel⟩
-  | some more => ephemIter fuel order (start :: more) dates none none kstep true
-
-/-- `NumericalPropagator.iter(**kwargs)` followed by `KeplerNum._iter(**kwargs)`; `h = self.step > 0`.
+computation; only its result date `start` enters here. `listening` = `bool(listeners)`.
 Returns also whether `Ephem.iter` (and with it `clear_listeners`) was reached. -/
-def numIter (fuel order : Nat) (epoch h : Int) (a : Args) : Bool × Run :=
+def numCore (fuel order : Nat) (h start stop : Int) (kstep : Option Int) (dates : Option Dates) (listening : Bool) : Bool × Run :=
+  let backward := decide (stop < start)
+  let hs := if backward then -h else h
+  let interp := dates.isSome || kstep.isSome || listening
+  match march backward interp order hs stop fuel 1 start with
+  | none => (false, ⟨[], .fuel⟩)
+  | some more =>
+    -- `if backward and dates is None: dates = Date.range(start, stop, _step if step is None else step, inclusive=True)`
+    let datesE : Except Err (Option Dates) :=
+      if backward && dates.isNone then (mkRange start stop (kstep.getD hs) true).map some else .ok dates
+    match datesE with
+    | .error e => (false, Run.fail e)
+    | .ok dates1 =>
+      -- `Ephem(ephem)` sorts the points by date (h > 0: a backward march is a descending list)
+      let pts := if backward then (start :: more).reverse else start :: more
+      -- `last = stop if dates is None and start <= stop else None`
+      let last : Option Stop := if dates1.isNone && decide (start ≤ stop) then some (.at stop) else none
+      (true, ephemIter fuel order pts dates1 none last kstep true)
+
+/-- `NumericalPropagator.iter(**kwargs)` followed by `KeplerNum._iter(**kwargs)`; `h = self.step > 0`. -/
+def numIter (fuel order : Nat) (epoch h : Int) (a : Args) (listening : Bool) : Bool × Run :=
   match a.dates with
-  | some (.list _) => (false, Run.fail .attr)              -- `dates.start` on a list
-  | some (.range s0 s1 st incl) => (true, numCore fuel order h s0 s1 none (some (.range s0 s1 st incl)))
+  | some (.list []) => (false, ⟨[], .done⟩)                -- `if not dates: return`
+  | some (.list (d :: l)) => numCore fuel order h (listMin d l) (listMax d l) none (some (.list (d :: l))) listening
+  | some (.range s0 s1 st incl) => numCore fuel order h s0 s1 none (some (.range s0 s1 st incl)) listening
   | none =>
     match a.stop with
     | none => (false, Run.fail .value)
@@ -218,7 +266,7 @@ def numIter (fuel order : Nat) (epoch h : Int) (a : Args) : Bool × Run :=
         | some (some s) => some s
       match a.start with
       | some none => (false, Run.fail .attr)               -- kwargs["start"] is still None: `None != orb.date`
-      | _ => (true, numCore fuel order h startL stop kstep none)
+      | _ => numCore fuel order h startL stop kstep none listening
 
 /-! ### objects, binding, listeners, histories -/
 
@@ -237,13 +285,16 @@ structure St (V : Type) where
   bound : Option (Nat × V) := none     -- object the propagator was last bound to, and the value it then took
   rebinds : Nat := 0                   -- how many times the `orbit` setter ran
   prev : List (Option Int) := []       -- `Listener.prev` (date of the state it holds) per listener object
-  ver : Nat → Nat := fun _ => 0        -- how many times each orbit object was modified in place by the user
+  ver : Nat → Nat × Nat := fun _ => (0, 0)   -- how many times each orbit object was modified in place by the user:
+                                       -- (changes of its coordinates, changes of its drag terms bstar / ndot / ndotdot)
 
-/-- configuration that calls never write: the value of orbit object `i` after `k` in-place modifications by the
-user (`store i k`), the kind, the numerical set-up -/
+/-- configuration that calls never write: the value of orbit object `i` after `k = (k₁, k₂)` in-place modifications by the
+user (`store i k`), the kind, the numerical set-up; `sameState a b` is `Sgp4._state(a) == Sgp4._state(b)`: the coordinates,
+date, form and frame of the two orbit values are equal (their other attributes are not looked at) -/
 structure World (V : Type) where
   kind : Kind
-  store : Nat → Nat → V
+  store : Nat → Nat × Nat → V
+  sameState : V → V → Bool
   epoch : Nat → Int
   h : Int := 60000000
   order : Nat := 8
@@ -258,7 +309,17 @@ def bind {V : Type} (w : World V) (s : St V) (i : Nat) : St V :=
   else if w.kind.ident && (s.bound.map (·.1) == some i) then s
   else { s with bound := some (i, cur w s i), rebinds := s.rebinds + 1 }
 
-/-- value the propagation works from after binding: what the `orbit` setter derived from the orbit when it ran
+/-- `Sgp4.propagate`: `if self._state(self._orbit) != self._bound_to: self.orbit = self._orbit` — the satellite record is
+re-derived when the bound orbit object no longer has the STATE (`World.sameState`: coordinates, date, form, frame) the record
+was computed from (the object stays the same: not a re-binding to another object) -/
+def refresh {V : Type} (w : World V) (s : St V) : St V :=
+  if w.kind = .sgp4 then
+    match s.bound with
+    | some (j, v) => if w.sameState v (cur w s j) then s else { s with bound := some (j, cur w s j) }
+    | none => s
+  else s
+
+/-- value the propagation works from: what the `orbit` setter derived from the orbit when it last ran
 (Sgp4: the satellite record `self.tle`; Kepler, J2, KeplerNum, CW: the converted copy), except for
 `NonePropagator.propagate`, which copies the bound object itself at each call -/
 def boundVal {V : Type} (w : World V) (s : St V) (i : Nat) : V :=
@@ -271,17 +332,19 @@ inductive Call
   | propagate (orb : Nat) (date : Int)
   | iter (orb : Nat) (a : Args) (ls : List Nat) (consume : Nat)
   | modify (orb : Nat)            -- the user changes elements of the orbit object in place (`orb[k] = x`)
+  | modifyMeta (orb : Nat)        -- the user changes a drag term of the orbit object in place (`orb.bstar = x`)
 deriving Repr
 
 def Call.isModify : Call → Bool
   | .modify _ => true
+  | .modifyMeta _ => true
   | _ => false
 
 /-- the iterator of a call, and whether `clear_listeners` is reached before it ends -/
-def iterRun {V : Type} (w : World V) (fuel : Nat) (i : Nat) (a : Args) : Bool × Run :=
+def iterRun {V : Type} (w : World V) (fuel : Nat) (i : Nat) (a : Args) (listening : Bool) : Bool × Run :=
   match w.kind with
   | .ephem => (true, ephemIter fuel w.order w.pts a.dates (a.start.getD none) a.stop (a.step.getD none) a.strict)
-  | .num => numIter fuel w.order (w.epoch i) w.h a
+  | .num => numIter fuel w.order (w.epoch i) w.h a listening
   | _ => analyticalIter fuel (w.epoch i) none a
 
 def setPrev (prev : List (Option Int)) (ls : List Nat) (v : Option Int) : List (Option Int) :=
@@ -305,7 +368,7 @@ structure Result (R : Type) where
 def exec {V R : Type} (w : World V) (f : V → Int → R) (cross : V → Int → Int → Bool) (fuel : Nat)
     (s : St V) : Call → St V × Result R
   | .propagate i date =>
-    let s1 := bind w s i
+    let s1 := refresh w (bind w s i)
     let v := boundVal w s1 i
     let ok := match w.kind with
       | .ephem => interpOk w.order w.pts date
@@ -313,10 +376,9 @@ def exec {V R : Type} (w : World V) (f : V → Int → R) (cross : V → Int →
     (s1, ⟨if ok then ⟨[date], .done⟩ else Run.fail .value, if ok then [f v date] else [], []⟩)
   | .iter i a ls consume =>
     let s1 := bind w s i
-    let v := boundVal w s1 i
     if consume = 0 then (s1, ⟨⟨[], .fuel⟩, [], []⟩)
     else
-      let (cleared, r) := iterRun w fuel i a
+      let (cleared, r) := iterRun w fuel i a (!ls.isEmpty)
       -- an iterator that fails before `clear_listeners` (argument errors) has not yielded anything
       let taken := if cleared then r.dates.take consume else []
       let fin := if consume ≤ r.dates.length then Fin.fuel else r.fin
@@ -324,11 +386,16 @@ def exec {V R : Type} (w : World V) (f : V → Int → R) (cross : V → Int →
       let prev1 := match taken.getLast? with
         | some d => setPrev prev0 ls (some d)
         | none => prev0
+      -- `propagate` (and with it the Sgp4 check of the record) runs once per date: not at all when nothing is yielded
+      let s2 := if taken.isEmpty then s1 else refresh w s1
+      let v := boundVal w s2 i
       -- `Speaker.listen`: each passed listener compares with the `prev` it holds when the stream starts
       let evs := ls.map (fun j => events (cross v) (prev0.getD j none) taken)
-      ({ s1 with prev := prev1 }, ⟨⟨taken, fin⟩, taken.map (f v), evs⟩)
+      ({ s2 with prev := prev1 }, ⟨⟨taken, fin⟩, taken.map (f v), evs⟩)
   | .modify i =>
-    ({ s with ver := fun j => if j = i then s.ver j + 1 else s.ver j }, ⟨⟨[], .done⟩, [], []⟩)
+    ({ s with ver := fun j => if j = i then ((s.ver j).1 + 1, (s.ver j).2) else s.ver j }, ⟨⟨[], .done⟩, [], []⟩)
+  | .modifyMeta i =>
+    ({ s with ver := fun j => if j = i then ((s.ver j).1, (s.ver j).2 + 1) else s.ver j }, ⟨⟨[], .done⟩, [], []⟩)
 
 /-- a history of calls from a given state -/
 def runHist {V R : Type} (w : World V) (f : V → Int → R) (cross : V → Int → Int → Bool) (fuel : Nat)
